@@ -532,7 +532,7 @@ impl PollInterval {
 
     #[must_use]
     pub fn inc(self, limits: PollIntervalLimits) -> Self {
-        Self(self.0 + 1).min(limits.max)
+        Self(self.0.saturating_add(1)).min(limits.max)
     }
 
     #[must_use]
@@ -542,7 +542,7 @@ impl PollInterval {
 
     #[must_use]
     pub fn dec(self, limits: PollIntervalLimits) -> Self {
-        Self(self.0 - 1).max(limits.min)
+        Self(self.0.saturating_sub(1)).max(limits.min)
     }
 
     pub const fn as_log(self) -> i8 {
